@@ -258,18 +258,21 @@ theorem projectSpec_meaning (emp : π → Bool) (k m : Int) (hk : k ≠ 0) (iv :
 
 /-- **`project`** (affine `c ↦ k*c + m`, `k > 0` or `k < 0`, optional interval, optional shortcut;
     the lazy result iterated by `__iter__` or `iterRange(os, oe)`) delivers `projectSpec`, for
-    every default value and also for fibers that store only empty elements.
-    PARTIAL — one class the code gets wrong is excluded by `h3` (open finding): a valid shortcut
-    that the assertion in `project` rejects because it compares a *source* coordinate with the
-    *target* interval.  Domain: a shortcut is only claimed for increasing transforms (the reversed
-    path asserts on any `start_pos`) and must be valid (`projValidStart`); an uncompressed rank
-    holds no content outside its active range. -/
-theorem project_spec_partial (emp : π → Bool) (mk : π) (hmk : emp mk = true) (cfg : Cfg) (k m : Int) (hk : k ≠ 0)
+    every sorted fiber (any occupancy, explicit defaults, any default value).  A shortcut is
+    claimed for increasing transforms (the reversed path asserts on any `start_pos`) and must be
+    valid (`projValidStart`: with an interval, the element before it projects below the interval;
+    without one, only empty elements are skipped) — a valid shortcut passes the code's own
+    assertion and never changes what is yielded.  An uncompressed rank holds no content outside
+    its active range. -/
+theorem project_startpos_spec (emp : π → Bool) (mk : π) (hmk : emp mk = true) (cfg : Cfg) (k m : Int) (hk : k ≠ 0)
     (iv : Option (Int × Int)) (sp : Option Nat) (os oe : Option Int) (f : Fib Int π) (hs : Sorted f)
     (hU : cfg.fmt = .C ∨ withinActive emp cfg f = true)
-    (hsp : ∀ i, sp = some i → 0 < k ∧ projValidStart emp k m iv i f = true)
-    (h3 : projStartOk iv sp f = true) :
+    (hsp : ∀ i, sp = some i → 0 < k ∧ projValidStart emp k m iv i f = true) :
     project emp mk cfg k m iv sp os oe f = .ok (projectSpec emp k m iv os oe f) := by
+  have h3 : projStartOk k m iv sp f = true := by
+    cases sp with
+    | none => rfl
+    | some i => exact projStartOk_of_valid (hsp i rfl).2
   by_cases hneg : k < 0
   · cases sp with
     | some i => have := (hsp i rfl).1; omega
@@ -287,14 +290,13 @@ theorem project_spec_partial (emp : π → Bool) (mk : π) (hmk : emp mk = true)
       | none => exact project_fwd_C emp mk cfg hf hpos m iv os oe hs
       | some i => exact project_fwd_C_sp emp mk cfg hf hpos m iv i os oe hs h3 (hsp i rfl).2
 
-/-- without a shortcut nothing is excluded: **`project` = `projectSpec`** for every sorted fiber
-    (any occupancy, explicit defaults, any default value), every increasing or decreasing affine
-    transform, every interval and every range the result is iterated with. -/
+/-- without a shortcut: **`project` = `projectSpec`** for every sorted fiber, every increasing or
+    decreasing affine transform, every interval and every range the result is iterated with. -/
 theorem project_spec (emp : π → Bool) (mk : π) (hmk : emp mk = true) (cfg : Cfg) (k m : Int) (hk : k ≠ 0)
     (iv : Option (Int × Int)) (os oe : Option Int) (f : Fib Int π) (hs : Sorted f)
     (hU : cfg.fmt = .C ∨ withinActive emp cfg f = true) :
     project emp mk cfg k m iv none os oe f = .ok (projectSpec emp k m iv os oe f) :=
-  project_spec_partial emp mk hmk cfg k m hk iv none os oe f hs hU (fun i h => by cases h) rfl
+  project_startpos_spec emp mk hmk cfg k m hk iv none os oe f hs hU (fun i h => by cases h)
 
 /-- **`prune`**: the lazy result delivers the non-empty elements of the default traversal that
     `trans_fn(i, c, p)` accepts (`i` = rank in that traversal), clipped to the range the result
@@ -338,24 +340,29 @@ example : strip (iterRange (fun v : Int => v == 0) (some (1 : Int)) (some 6) non
 #guard (shapeRefLoop (0 : Int) [(1, 5)] (pyRange 0 3 1)) == ([(0, 0), (1, 5), (2, 0)], [(0, 0), (1, 5), (2, 0)])
 #guard pyRange (-1) 6 3 == [-1, 2, 5]
 
-/-! ### the excluded class is real: the model (= the code) does not meet `projectSpec` there -/
+/-! ### the classes repaired in /repo now meet `projectSpec`; non-vacuity of the hypotheses -/
 
 private def c07_emp (dflt : Int) : Int → Bool := fun v => v == dflt
 
-/-- `h3`: `Fiber([0,2],[5,1]).project(lambda c: c-2, interval=(-1,1), start_pos=1)` is rejected although valid -/
-example : project (c07_emp 0) 0 {} 1 (-2) (some (-1, 1)) (some 1) none none [(0, 5), (2, 1)]
-    = .error .assertion := by rfl
+/-- `Fiber([0,2],[5,1]).project(lambda c: c-2, interval=(-1,1), start_pos=1)`: a valid shortcut
+    (the skipped element projects to -2 < -1), formerly rejected by a source-space assertion -/
 example : projValidStart (c07_emp 0) 1 (-2) (some (-1, 1)) 1 [(0, (5 : Int)), (2, 1)] = true := by decide
-example : projectSpec (c07_emp 0) 1 (-2) (some (-1, 1)) none none [(0, (5 : Int)), (2, 1)] = [(0, (some 1, 1))] := by decide
-/-- the two classes fixed in /repo (df4ea73, 2791d6a) now meet the specification -/
+example : project (c07_emp 0) 0 {} 1 (-2) (some (-1, 1)) (some 1) none none [(0, 5), (2, 1)]
+    = .ok [(0, (some 1, 1))] := by rfl
+/-- … and the dual, an invalid shortcut the old assertion let through, is rejected:
+    `Fiber([1,3],[5,6]).project(lambda c: c+10, interval=(11,14), start_pos=1)` -/
+example : project (c07_emp 0) 0 {} 1 10 (some (11, 14)) (some 1) none none [(1, 5), (3, 6)]
+    = .error .assertion := by rfl
+/-- reversed transform with a non-zero default, and a fiber storing only an explicit default -/
 example : project (c07_emp 7) 7 {} (-1) (-2) none none none none [(2, 0)] = .ok [(-4, (some 0, 0))] := by rfl
 example : project (c07_emp 0) 0 {} 1 (-2) none none none none [(2, 0)] = .ok [] := by rfl
-/-- the hypotheses of `project_spec_partial` are satisfiable by non-trivial values (decreasing
+/-- the hypotheses of `project_startpos_spec` are satisfiable by non-trivial values (decreasing
     transform with interval; increasing transform with a positive valid shortcut) -/
 example : project (c07_emp 0) 0 {} (-2) 10 (some (1, 9)) none none none [(0, 0), (1, 5), (3, 6), (5, 7)]
     = .ok [(4, (some 2, 6)), (8, (some 1, 5))] := by rfl
-example : projValidStart (c07_emp 0) 1 10 (some (12, 20)) 2 [(0, (0 : Int)), (1, 5), (3, 6), (5, 7)] = true ∧
-    projStartOk (some (12, 20)) (some 2) [(0, (0 : Int)), (1, 5), (3, 6), (5, 7)] = true := by decide
+example : projValidStart (c07_emp 0) 1 10 (some (12, 20)) 2 [(0, (0 : Int)), (1, 5), (3, 6), (5, 7)] = true := by decide
+example : project (c07_emp 0) 0 {} 1 10 (some (12, 20)) (some 2) none none [(0, 0), (1, 5), (3, 6), (5, 7)]
+    = .ok [(13, (some 2, 6)), (15, (some 3, 7))] := by rfl
 
 /-- prune: a legal, valid shortcut over an explicit default; an uncompressed rank within its active range -/
 example : startLegal (some 1) [(0, (0 : Int)), (2, 5), (4, 6)] = true ∧
